@@ -203,38 +203,44 @@ if not os.path.isdir(DATA):
     DATA = '/repo/tests/data'
 STYLES_QUICK = ['plain', 'unsrt', 'alpha', 'unsrt_mixed']
 STYLES_THOROUGH = STYLES_QUICK + ['IEEEtran', 'apacite', 'jurabib']
-PROBE_A = '\nFUNCTION {verif.pa} { "@A:" cite$ * top$ }\nITERATE {verif.pa}\n'
+PROBE_A = ('\nFUNCTION {verif.pa} { "@A:" cite$ * top$ }\nITERATE {verif.pa}\n'
+           'FUNCTION {verif.ps} { "@S:" cite$ * top$ "@K:" sort.key$ * top$ }\nFUNCTION {verif.mark} { "@M" top$ }\n')
+PROBE_S = 'EXECUTE {verif.mark}\nITERATE {verif.ps}\nSORT'       # before every SORT: the order and the keys it will sort by
 PROBE_B = '\nFUNCTION {verif.pb} { "@B:" cite$ * top$ "@K:" sort.key$ * top$ }\nITERATE {verif.pb}\n'
 _READ_RE = re.compile(r'^READ[ \t]*$', re.M | re.I)
 _SORT_RE = re.compile(r'^SORT[ \t]*$', re.M | re.I)
 
 _STYLE_TEXT = {}
 def style_source(name):
-    """(probed text, is_sorting) of a shipped style"""
+    """(probed text, number of SORT commands) of a shipped style"""
     if name not in _STYLE_TEXT:
         text = open(os.path.join(DATA, name + '.bst'), encoding='utf-8').read()
         if len(_READ_RE.findall(text)) != 1:
             raise HarnessBug('style %s: expected exactly one READ line' % name)
-        probed = _READ_RE.sub(lambda m: 'READ' + PROBE_A, text) + PROBE_B
-        _STYLE_TEXT[name] = (probed, bool(_SORT_RE.search(text)))
+        nsort = len(_SORT_RE.findall(text))
+        probed = _SORT_RE.sub(lambda m: PROBE_S, text)
+        probed = _READ_RE.sub(lambda m: 'READ' + PROBE_A, probed) + PROBE_B
+        _STYLE_TEXT[name] = (probed, nsort)
     return _STYLE_TEXT[name]
 
 def parse_probes(printed):
-    """-> (citations after READ, [(citation, sort key)] in final order)"""
-    a, b = [], []
+    """-> (citations after READ, [[(citation, sort key)] just before each SORT], [(citation, sort key)] at the end)"""
+    a, stages, b = [], [], []
     lines = printed.split('\n')
     i = 0
     while i < len(lines):
         ln = lines[i]
         if ln.startswith('@A:'):
             a.append(ln[3:])
-        elif ln.startswith('@B:'):
+        elif ln == '@M':
+            stages.append([])
+        elif ln.startswith('@B:') or ln.startswith('@S:'):
             k = lines[i + 1] if i + 1 < len(lines) else ''
             if not k.startswith('@K:'):
                 raise HarnessBug('probe output garbled: %r' % (lines[i:i + 2],))
-            b.append((ln[3:], k[3:])); i += 1
+            (b if ln.startswith('@B:') else stages[-1]).append((ln[3:], k[3:])); i += 1
         i += 1
-    return a, b
+    return a, stages, b
 
 def bibitems(bbl):
     """the keys of the \\bibitem commands of a .bbl, in order (optional [label] with balanced braces skipped)"""
@@ -262,7 +268,7 @@ def bibitems(bbl):
             j += 1
         if j < len(bbl) and bbl[j] == '{':
             k = bbl.find('}', j)
-            out.append(bbl[j + 1:k])
+            out.append(re.sub(r'^(%\n|\s)+', '', bbl[j + 1:k]).strip())      # apacite writes \bibitem[...]{%<newline>key}
             pos = k
         else:
             pos = j
